@@ -76,13 +76,20 @@ theorem nsegs_parent_abs (p : Text) (h : p = [] ∨ ∃ q, p = cSlash :: q) :
     unfold nsegs
     rw [habs, hk, nsegsOf_dots]
 
-/-- **the round trip through the shortcut** -/
-theorem relative_roundtrip_samedoc (oka : Grammar.OkAuth G) (we : Grammar.OkWE G) (a b : Text)
+/-- **the round trip through the shortcut**, stated with what the two kinds of pairs (absolute
+paths, rootless paths) have in common -/
+theorem relative_roundtrip_samedoc_core (oka : Grammar.OkAuth G) (we : Grammar.OkWE G) (a b : Text)
     (ha : Matches G.full a) (hb : Matches G.full b)
     (hsch : (split a).scheme = (split b).scheme)
     (hkey : (split a).authority.map authKey = (split b).authority.map authKey)
-    (hpa : isAbs (split a).path = true)
-    (hpb : isAbs (split b).path = true ∨ ((split b).path = [] ∧ (split b).authority.isSome = true))
+    (habs0 : (Path.is_absolute (split a).path !=
+        (Path.is_absolute (split b).path || ((split b).authority.isSome && Path.is_empty (split b).path))) = false)
+    (hhA : ((nsegs (split a).path).head? == some [cDot, cDot]) = false)
+    (hhB : ((nsegs (Path.parent_or_empty (split b).path)).head? == some [cDot, cDot]) = false)
+    (hdfA : DotFree (nsegs (split a).path))
+    (hsame : (split b).path ≠ [] → isAbs (split b).path = isAbs (split a).path)
+    (he0 : (split b).path ≠ [] →
+      nsegs (Path.parent_or_empty (split b).path) = nsegsOf (isAbs (split b).path) (segs (split b).path).dropLast)
     (hne : nsegs (split a).path ≠ [])
     (hcls : (!(remainder a b).2.2 && (remainder a b).1.head? == some []) = false)
     (hsd : sdCond a b = true) :
@@ -92,7 +99,7 @@ theorem relative_roundtrip_samedoc (oka : Grammar.OkAuth G) (we : Grammar.OkWE G
   obtain ⟨vA, wA⟩ := split_valid G ok a haR
   obtain ⟨vB, wB⟩ := split_valid G ok b hbR
   have hLne0 := relSegs_ne_nil G ok okp we a b haR hbR hne
-  have hbody := relative_body_explicit_gen G ok okp we a b haR hbR hpa hpb hLne0 hcls
+  have hbody := relative_body_explicit_core G ok okp we a b haR hbR habs0 hhA hhB hLne0 hcls
   rw [hsd] at hbody
   simp only [if_true] at hbody
   have hrel : Ref.relative_to a b = some (recompose (pathQF [] (split a).query (split a).fragment)) := by
@@ -151,19 +158,8 @@ theorem relative_roundtrip_samedoc (oka : Grammar.OkAuth G) (we : Grammar.OkWE G
     intro e
     rw [e] at hlast
     simp [segs, stripRoot] at hlast
-  have hBabs : isAbs (split b).path = true := by
-    rcases hpb with h | ⟨h, _⟩
-    · exact h
-    · exact absurd h hBne
-  have hBab : (split b).path = [] ∨ ∃ q, (split b).path = cSlash :: q := by
-    right
-    cases hpp' : (split b).path with
-    | nil => exact absurd hpp' hBne
-    | cons c t =>
-      rw [hpp'] at hBabs
-      have : c = cSlash := by simpa [isAbs] using hBabs
-      exact ⟨t, by rw [this]⟩
-  have he0 := nsegs_parent_abs (split b).path hBab
+  have hBsame := hsame hBne
+  have he0 := he0 hBne
   obtain ⟨ca, cb, hA, hB, hcab, _, hssne⟩ := dropCommon_spec (nsegs (split a).path) (nsegs (Path.parent_or_empty (split b).path))
     (nsegs_we _ hweA) (nsegs_we _ (hpw hweB))
   unfold relSegs remainder at hlast hLne0
@@ -171,8 +167,6 @@ theorem relative_roundtrip_samedoc (oka : Grammar.OkAuth G) (we : Grammar.OkWE G
   obtain ⟨ss, bs, cm⟩ := d
   simp only [] at hlast hLne0 hA hB hssne
   have hrem1 : ss ≠ [] := hssne hne
-  have hdfA : DotFree (nsegs (split a).path) := by
-    unfold nsegs; rw [hpa]; exact nsegsOf_abs_dotFree _
   have hLns : ∀ s ∈ (bs.map fun _ => segDotDot) ++ ss, cSlash ∉ s := by
     intro s hs
     rcases List.mem_append.mp hs with h | h
@@ -207,10 +201,52 @@ theorem relative_roundtrip_samedoc (oka : Grammar.OkAuth G) (we : Grammar.OkWE G
     injection hlast with h2
     rw [← h2]; exact h1.symm
   have hnB : nsegs (split b).path = cb ++ [lb] := by
-    unfold nsegs
-    rw [hBabs, hsegsB, nsegsOf_snoc _ _ _ hlb1 hlb2, ← he0, hB]
+    have : nsegsOf (isAbs (split b).path) (segs (split b).path) = cb ++ [lb] := by
+      rw [hsegsB, nsegsOf_snoc _ _ _ hlb1 hlb2, ← he0, hB]
+    exact this
   unfold pathKey
-  rw [hpa, hBabs, hnB, hA, List.map_append, List.map_append, hcab]
+  rw [hBsame, hnB, hA, List.map_append, List.map_append, hcab]
+
+
+/-- **the round trip through the shortcut**, both paths absolute (the base's may be empty behind an
+authority) -/
+theorem relative_roundtrip_samedoc (oka : Grammar.OkAuth G) (we : Grammar.OkWE G) (a b : Text)
+    (ha : Matches G.full a) (hb : Matches G.full b)
+    (hsch : (split a).scheme = (split b).scheme)
+    (hkey : (split a).authority.map authKey = (split b).authority.map authKey)
+    (hpa : isAbs (split a).path = true)
+    (hpb : isAbs (split b).path = true ∨ ((split b).path = [] ∧ (split b).authority.isSome = true))
+    (hne : nsegs (split a).path ≠ [])
+    (hcls : (!(remainder a b).2.2 && (remainder a b).1.head? == some []) = false)
+    (hsd : sdCond a b = true) :
+    ∃ r t, Ref.relative_to a b = some r ∧ Ref.resolve r b = some t ∧ key t = key a := by
+  have hBab : (split b).path = [] ∨ ∃ q, (split b).path = cSlash :: q := by
+    rcases hpb with hpb | hpb
+    · right
+      cases hpp' : (split b).path with
+      | nil => rw [hpp'] at hpb; simp [isAbs] at hpb
+      | cons c t =>
+        rw [hpp'] at hpb
+        have : c = cSlash := by simpa [isAbs] using hpb
+        exact ⟨t, by rw [this]⟩
+    · exact .inl hpb.1
+  have hBabs : (split b).path ≠ [] → isAbs (split b).path = true := by
+    intro h
+    rcases hpb with h1 | ⟨h1, _⟩
+    · exact h1
+    · exact absurd h1 h
+  have he0 := nsegs_parent_abs (split b).path hBab
+  have hdfA : DotFree (nsegs (split a).path) := by
+    unfold nsegs; rw [hpa]; exact nsegsOf_abs_dotFree _
+  have hdfB : DotFree (nsegs (Path.parent_or_empty (split b).path)) := by rw [he0]; exact nsegsOf_abs_dotFree _
+  have habs0 : (Path.is_absolute (split a).path !=
+      (Path.is_absolute (split b).path || ((split b).authority.isSome && Path.is_empty (split b).path))) = false := by
+    rw [is_absolute_eq, is_absolute_eq, hpa]
+    rcases hpb with h | ⟨h, h2⟩
+    · rw [h]; rfl
+    · rw [h, h2]; rfl
+  exact relative_roundtrip_samedoc_core G ok okp oka we a b ha hb hsch hkey habs0 (head_not_dotdot hdfA)
+    (head_not_dotdot hdfB) hdfA (fun h => by rw [hBabs h, hpa]) (fun h => by rw [hBabs h]; exact he0) hne hcls hsd
 
 end
 
